@@ -475,6 +475,10 @@ class Path:
             return z3.ArraySort(z3.StringSort(), Val)
         if field == "dict.order":
             return M.StrSeq
+        if field == "idict.dom":
+            return z3.ArraySort(z3.IntSort(), z3.BoolSort())
+        if field == "idict.map":
+            return z3.ArraySort(z3.IntSort(), Val)
         return Val
 
     def heap_arr(self, field):
@@ -554,6 +558,10 @@ class Engine:
             r = self.p.alloc("tuple")
             self.p.hwrite("list.items", r.ref, self.seq_of(sv.items))
             return Val.VRef(r.cls, r.ref)
+        if k == "py":
+            import enum as _enum
+            if isinstance(sv.py, _enum.IntEnum):
+                return Val.VInt(int(sv.py))
         if k == "func":
             # a Python-level callable created by the analysed code: an opaque callable object
             if sv.ref is None:
@@ -1022,7 +1030,7 @@ class Engine:
             if op == "**":
                 return self.int_pow(x, y)
             if op in ("&", "|", "^", "<<", ">>"):
-                return self.bitop(op, x, y)
+                return self.bitop(op, x, y, a.extra, b.extra)
             raise Unsupported(f"int op {op}")
         if op in ("&", "|", "^", "<<", ">>"):
             raise PyExc("TypeError", None, f"unsupported operand type(s) for {op}: float")
@@ -1097,8 +1105,17 @@ class Engine:
         p.assume(M.flt_wf(k, r))
         return SV("float", k=k, r=r)
 
-    def bitop(self, op, x, y):
+    def bitop(self, op, x, y, xa=None, ya=None):
         p = self.p
+        if op == "|":
+            # a | (b << k) with 0 <= a < 2**k is a + b * 2**k  (disjoint bits)
+            for (u, ue, w) in ((x, xa, y), (y, ya, x)):
+                pass
+            for (shifted, info, other) in ((y, ya, x), (x, xa, y)):
+                if isinstance(info, tuple) and info[0] == "shl":
+                    k = info[1]
+                    if not p.feasible(z3.Or(other < 0, other >= 2 ** k)) and not p.feasible(shifted < 0):
+                        return s_int(other + shifted)
         cy = conc_int(y)
         cx = conc_int(x)
         if cx is not None and cy is not None:
@@ -1127,7 +1144,10 @@ class Engine:
                 else:
                     raise Unsupported("shift by unbounded amount")
             if op == "<<":
-                return s_int(x * pw)
+                r = s_int(x * pw)
+                if cy is not None:
+                    r.extra = ("shl", cy)
+                return r
             return s_int(x / pw)      # pw > 0: Euclidean div == floor
         # general &,|,^ : exact for operands that fit 64-bit two's complement, via bit-vectors
         if not p.feasible(z3.Or(x >= 2 ** 63, x < -2 ** 63, y >= 2 ** 63, y < -2 ** 63)):
@@ -1525,6 +1545,13 @@ class Engine:
                         raise PyExc("ValueError", None, "byte must be in range(0, 256)")
                 new = z3.Concat(z3.SubSeq(t, 0, i), z3.Unit(self.box(value)), z3.SubSeq(t, i + 1, n - i - 1))
                 p.hwrite("list.items", base.ref, simp(new))
+                return
+            if cn == "dict" and idx.kind == "int":
+                # dict with integer keys (source maps): separate map, insertion order not modelled
+                dom = p.heap_arr("idict.dom")
+                p.heap["idict.dom"] = z3.Store(dom, base.ref, z3.Store(z3.Select(dom, base.ref), idx.t, True))
+                mp = p.heap_arr("idict.map")
+                p.heap["idict.map"] = z3.Store(mp, base.ref, z3.Store(z3.Select(mp, base.ref), idx.t, self.box(value)))
                 return
             if cn == "dict":
                 if idx.kind != "str":
